@@ -11,7 +11,11 @@ for n in "${names[@]}"; do
   t=$root/$n; rm -rf "$t"; mkdir -p "$t"
   cp -r /repo/fixed_lib "$t/fixed_lib"
   if ! (cd "$t" && patch -s -p1 < /verif/seeded/$n/patch.diff); then echo "$n: patch does not apply to the current tree"; fail=1; rm -rf "$t"; continue; fi
-  FM_REPO=$t FM_EVIDENCE=$t/evidence FM_REPLAYS=$t/replays ./fmcheck run $prop --tier quick > "$t/out.txt" 2>&1; rc=$?
+  tier=quick
+  # a change that is reported by a neighbouring property, or by the thorough tier only (DESIGN.md section 6b): meta.json says which
+  by=$(sed -n 's/.*"reported_by_instead": "\([^"]*\)".*/\1/p' seeded/$n/meta.json | head -1)
+  if [ -n "$by" ]; then case "$by" in thorough:*) tier=thorough; prop=${by#thorough:};; *) prop=$by;; esac; fi
+  FM_REPO=$t FM_EVIDENCE=$t/evidence FM_REPLAYS=$t/replays ./fmcheck run $prop --tier $tier > "$t/out.txt" 2>&1; rc=$?
   v=$(grep -c '^VIOLATION' "$t/out.txt")
   if grep -q '"expected": "silent"' seeded/$n/meta.json; then
     # a change that was judged NOT to violate the property as stated: the check must stay silent
